@@ -26,6 +26,15 @@ type pkgSrc struct {
 	generated []string // cgo-generated files (not in GoFiles)
 }
 
+func (p *pkgSrc) anyLineDirective() bool {
+	for _, src := range p.files {
+		if hasLineDirectiveOrCgo(src) {
+			return true
+		}
+	}
+	return false
+}
+
 func (p *pkgSrc) isGenerated(name string) bool {
 	for _, g := range p.generated {
 		if g == name {
@@ -113,6 +122,9 @@ func checkPositions(ps *pkgSrc, d runner.Diagnostic) []violation {
 	var out []violation
 	if src, ok := ps.files[d.Position.Filename]; ok && hasLineDirectiveOrCgo(src) {
 		return nil
+	}
+	if _, ok := ps.files[d.Position.Filename]; !ok && ps.anyLineDirective() {
+		return nil // remapped by a //line directive to a name outside the package
 	}
 	so, msg := ps.posOffset(d.Position)
 	if msg != "" {
